@@ -42,7 +42,10 @@ func (r *dcRes) Close() error {
 }
 
 func runC12DerivedContexts(c *eng.Ctx, next func() (int, bool)) {
-	shapes := []string{"top-level-siblings", "child-siblings", "chain-of-three", "top-level-siblings:nothing-fails", "child-of-the-first:under-the-provider"}
+	shapes := []string{"top-level-siblings", "child-siblings", "chain-of-three", "top-level-siblings:nothing-fails", "child-of-the-first:under-the-provider",
+		// a GRANDCHILD on an uncle's context: A > B1, B2; G under B2 created with B1's context (and, so
+		// that the order in which A closes its children does not matter, G' under B1 with B2's)
+		"grandchildren-on-their-uncles-contexts"}
 	reps := c.Pick(10, 40)
 	for _, shape := range shapes {
 		for rep := 0; rep < reps; rep++ {
@@ -84,7 +87,7 @@ func runC12DerivedContexts(c *eng.Ctx, next func() (int, bool)) {
 					return r
 				}
 				var closeIt func() error
-				var failing *dcRes
+				var failing, failing2 *dcRes
 				what := "provider.Close"
 				switch shape {
 				case "top-level-siblings", "top-level-siblings:nothing-fails":
@@ -109,6 +112,20 @@ func runC12DerivedContexts(c *eng.Ctx, next func() (int, bool)) {
 					res(b).slow = time.Millisecond
 					failing = res(d)
 					closeIt = prov.Close
+				case "grandchildren-on-their-uncles-contexts":
+					a := must(prov.CreateScope(context.Background()))
+					b1 := must(a.CreateScope(context.Background()))
+					b2 := must(a.CreateScope(context.Background()))
+					g2 := must(b2.CreateScope(b1.Context()))
+					g1 := must(b1.CreateScope(b2.Context()))
+					res(a)
+					res(b1).slow = 2 * time.Millisecond
+					res(b2).slow = 2 * time.Millisecond
+					failing = res(g2)
+					also := res(g1)
+					also.fail = true
+					failing2 = also
+					closeIt, what = a.Close, "grandparent.Close"
 				case "child-of-the-first:under-the-provider":
 					a := must(prov.CreateScope(context.Background()))
 					a1 := must(a.CreateScope(context.Background()))
@@ -132,6 +149,12 @@ func runC12DerivedContexts(c *eng.Ctx, next func() (int, bool)) {
 					return
 				}
 				failedDuring := failing.fail && failing.closes.Load() > 0
+				if failing2 != nil && cerr != nil {
+					// two instances failed: the aggregate lists both (flattened)
+					if n := countLeafErrors(cerr, errDc); n < 2 {
+						viol("disposal-error-lost", fmt.Sprintf("%s reports %d of the 2 Close failures in its subtree (both grandchildren own a failing instance; each one's context derives from the OTHER child's): %v", what, n, cerr))
+					}
+				}
 				switch {
 				case failedDuring && cerr == nil:
 					viol("disposal-error-lost", fmt.Sprintf("%s returned nil although an instance of a scope in its subtree failed to close while it ran (the scope's context was derived from a sibling's, so the sibling's Close woke its context watcher)", what))
@@ -157,4 +180,36 @@ func runC12DerivedContexts(c *eng.Ctx, next func() (int, bool)) {
 			c.R.End(idx, eng.Hash("c12-derived-ctx", shape, rep), true)
 		}
 	}
+}
+
+// countLeafErrors counts how often target is reachable in the error tree (Unwrap() error,
+// Unwrap() []error and godi.DisposalError's list).
+func countLeafErrors(err error, target error) int {
+	if err == nil {
+		return 0
+	}
+	if err == target {
+		return 1
+	}
+	n := 0
+	switch x := err.(type) {
+	case *godi.DisposalError:
+		for _, e := range x.Errors {
+			n += countLeafErrors(e, target)
+		}
+		return n
+	case godi.DisposalError:
+		for _, e := range x.Errors {
+			n += countLeafErrors(e, target)
+		}
+		return n
+	case interface{ Unwrap() []error }:
+		for _, e := range x.Unwrap() {
+			n += countLeafErrors(e, target)
+		}
+		return n
+	case interface{ Unwrap() error }:
+		return countLeafErrors(x.Unwrap(), target)
+	}
+	return 0
 }
